@@ -608,3 +608,19 @@ func hImportOp(kind, fmtName string, key uint64, lows []uint16) hOp {
 	op.Vals = op.spec.vModel()
 	return op
 }
+
+// vSliceBounded reads b through the public iterator but stops one value after
+// max values: a corrupted bitmap can make Slice() run and allocate without
+// end, and one extra value already proves a disagreement.
+func vSliceBounded(b *Bitmap, max int) []uint64 {
+	it := b.Iterator()
+	it.Seek(0)
+	out := make([]uint64, 0, 64)
+	for v, eof := it.Next(); !eof; v, eof = it.Next() {
+		out = append(out, v)
+		if len(out) > max {
+			break
+		}
+	}
+	return out
+}
